@@ -160,8 +160,15 @@ def run(ctx):
                   "every dictionary word that begins with the typed word can be found (its table is searched), and only existing tables are named")
     dic = tables.load_json("dictionary.json")
     if search:
-        sb = prog.body(search)
-        sw = switches_on(sb, lambda e: e.k == "call" and e.a[0].endswith("unwrap_or_default") and contains_call(e, lambda n: n.endswith("Iterator>::next")) is not None)
+        from . import roles as _roles
+        sb = _roles.ib(prog, search)          # table / pattern helpers split off the search are spliced in
+
+        def first_char(e):
+            # the word's first character: next() of its chars, defaulted or taken from the Some payload
+            if contains_call(e, lambda n: n.endswith("Iterator>::next")) is None or contains_call(e, lambda n: n.endswith("str>::chars")) is None:
+                return False
+            return (e.k == "call" and e.a[0].endswith("unwrap_or_default")) or (e.k == "field" and strip_refs(e.a[0]).k == "downcast")
+        sw = switches_on(sb, first_char)
         sw = [x for x in sw if x[1]["discr_ty"] == "char"]
         if len(sw) != 1:
             r4.undecidable("table", "first-letter match not found uniquely (%d)" % len(sw), common.fn_line(prog, search))
@@ -214,7 +221,8 @@ def run(ctx):
     r5 = chk.rule("C15.R5", "search pattern = ^ cleaned-word [one class]{0,n} $ ; the cleaning set covers the regex meta-characters and the non-joiner",
                   "every other candidate begins with the typed word once punctuation and the non-joiners are ignored")
     if search:
-        sb = prog.body(search)
+        from . import roles as _roles
+        sb = _roles.ib(prog, search)
         rx = [(bb, t) for (bb, t) in sb.calls() if callee_name(t) == "regex::Regex::new"]
         if len(rx) != 1:
             r5.undecidable("pattern", "Regex::new not found uniquely")
@@ -229,8 +237,22 @@ def run(ctx):
                 cls_lit = l1[1]
                 ok_cls = pyre.fullmatch(r"\[[^\[\]\\^]+\]\{0,", cls_lit) is not None
                 word = peel_conv(w[1])
-                cleaner = word.a[0] if word.k == "call" and word.a[0] in prog.fns else None
-                word_src = peel_conv(word.a[1][0]) if cleaner else None
+                # the cleaned word: collect(filter(chars(<search word>), closure)) — the cleaner helper is spliced in
+                chain = []
+                x = word
+                while x.k == "call" and x.a[1]:
+                    chain.append(x)
+                    x = peel_conv(x.a[1][0])
+                cnames = [c.a[0].split("::")[-1] for c in chain]
+                cleaner = None
+                word_src = None
+                clo = None
+                if cnames == ["collect", "filter", "chars"]:
+                    word_src = x
+                    f = strip_refs(chain[1].a[1][1])
+                    if f.k == "agg" and str(f.a[0]).startswith("closure:"):
+                        clo = f.a[0][8:]
+                        cleaner = clo.rsplit("::{closure", 1)[0]
                 nn = strip_refs(n_[1])
                 n_ok = nn.k in ("phi", "const") and all(is_const(x, "int") and 0 <= const_val(x) <= 8 for x in (nn.a[0] if nn.k == "phi" else [nn]))
                 if l0[1] != "^" or l2[1] != "}$":
@@ -251,13 +273,8 @@ def run(ctx):
                     else:
                         r5.ok("class", "%d Bengali letters and signs" % len(inner))
                     # cleaning set
-                    cb = prog.body(cleaner)
-                    clo = None
-                    for x in cb.expr_local(0).walk():
-                        if x.k == "agg" and x.a[0].startswith("closure:"):
-                            clo = x.a[0][8:]
                     removed = None
-                    if clo and contains_call(cb.expr_local(0), lambda n: n.endswith("::filter")) is not None:
+                    if clo:
                         pe = PredEval(prog)
                         dom = [chr(c) for c in range(0x20, 0x7f)] + ["‌", "‍", "।", "ক", "া", "্"]
                         kept = set()
